@@ -1,6 +1,7 @@
 package main
 
 import (
+	"errors"
 	"reflect"
 	"strconv"
 	"strings"
@@ -103,6 +104,13 @@ type textRange struct {
 
 // rangesFromText: the range literal of every relationship pattern that has one, in document order, read from the generated parser's tree.
 func rangesFromText(text string) (out []textRange, ok bool) {
+	out, ok, _ = rangesFromTextR(text)
+	return out, ok
+}
+
+// rangesFromTextR: … and whether some bound is an integer literal outside the int64 range (the reference refuses such a query: no
+// variable-length bound of the language's integers is that large; a translator that accepts it has dropped the bound)
+func rangesFromTextR(text string) (out []textRange, ok bool, rangeBoundOutOfRange bool) {
 	lexer := parser.NewCypherLexer(antlr.NewInputStream(text))
 	el := &countingErrorListener{DefaultErrorListener: antlr.NewDefaultErrorListener()}
 	lexer.RemoveErrorListeners()
@@ -113,7 +121,7 @@ func rangesFromText(text string) (out []textRange, ok bool) {
 	p.AddErrorListener(el)
 	tree := p.OC_Cypher()
 	if el.n > 0 {
-		return nil, false
+		return nil, false, false
 	}
 	good := true
 	var walk func(t antlr.Tree)
@@ -138,6 +146,9 @@ func rangesFromText(text string) (out []textRange, ok bool) {
 						v, err := strconv.ParseInt(n.GetText(), 0, 64)
 						if err != nil {
 							good = false
+							if errors.Is(err, strconv.ErrRange) {
+								rangeBoundOutOfRange = true
+							}
 						}
 						ints = append(ints, v)
 						intAfterDots = append(intAfterDots, seenDots)
@@ -164,7 +175,7 @@ func rangesFromText(text string) (out []textRange, ok bool) {
 		}
 	}
 	walk(tree)
-	return out, good
+	return out, good, rangeBoundOutOfRange
 }
 
 // collectRanges: the ranges of the relationship patterns of a parsed model that have one, in document order.
